@@ -225,7 +225,8 @@ def c05(ctx):
                 # the decoded size: the same quantity that indexed the last store of this decoder
                 wr_ = [x for x in t.events if x['k'] == 'wr' and x['region'][0] == 'vdata' and x['fn'] == e['fn']]
                 # the decoded size: the index of the terminating NUL, or one past the last byte stored
-                ok = is_lin(v) and (any(cval(x['val']) == 0 and x['off'] == v for x in wr_) or any(x['off'].addc(1) == v for x in wr_))
+                ok = is_lin(v) and (any(cval(x['val']) == 0 and x['off'] == v for x in wr_) or any(x['off'].addc(1) == v for x in wr_)
+                                    or (not v.is_const() and any(x['off'].terms == v.terms for x in wr_)))
                 ctx.check('length', ok, _ob_site(e), 'the length handed to the variable callback (%s) is not the decoded length' % (v,))
     return ctx
 
